@@ -1652,6 +1652,12 @@ func (g *FuncGen) runGhostAt(callee string, ord int, env *Env, results []Val) {
 					genv.ambig = map[string]bool{}
 				}
 				genv.ambig[k] = true
+			} else if pv, isParam := g.params[k]; isParam {
+				// same name, same type: the ghost statement is written in the CALLER's vocabulary, so the caller's
+				// variable is meant (the callee's is available as argN)
+				genv.vars[k] = pv
+			} else if _, isLocal := g.names[k]; isLocal {
+				delete(genv.vars, k) // resolved through the caller's locals below
 			}
 		}
 		// ... and the caller's locals whose (single) definition dominates the call site
